@@ -36,18 +36,18 @@ theorem fingerprints_expected : fingerprints = [
   ("normalisedIndexDuration", "37e39f2c24758082"),
   ("RetentionPolicyInfo.EqualsAnotherRp", "169ea6b2fa2329ab"),
   ("RetentionPolicyInfo.ShardGroupByTimestampAndEngineType", "32ee60703ce2a2a4"),
-  ("RetentionPolicyInfo.validMeasurementShardType", "a7b87a09776124b5"),
+  ("RetentionPolicyInfo.validMeasurementShardType", "498f17da74763482"),
   ("RetentionPolicyInfo.Measurement", "b706aa1a09fc7853"),
   ("RetentionPolicyInfo.maxShardGroupID", "5d50435602a30b67"),
   ("Data.CreateMeasurement", "e8e7c1a4e4fff288"),
   ("Data.createVersionMeasurement", "957f544eb4e120ca"),
   ("Data.UpdateSchema", "44debe133eb743ae"),
   ("checkFieldsToCreate", "7475e9830912d69d"),
-  ("Data.AlterShardKey", "43fb9a205a11164c"),
+  ("Data.AlterShardKey", "b535ba2785e6c5cc"),
   ("Data.Measurement", "fa8ecc3861b4201e"),
   ("Data.MarkMeasurementDelete", "4d218381ee6898df"),
   ("Data.DropMeasurement", "df4c1bfdbc3dc6e3"),
-  ("Data.CreateShardGroup", "8affcc4d51c58289"),
+  ("Data.CreateShardGroup", "e0bdf55259c0831a"),
   ("Data.newShardGroup", "d53b524abaa41c7e"),
   ("Data.createShards", "eef1a580f7e07672"),
   ("Data.CreateIndexGroup", "7703bd60f7e922d6"),
